@@ -557,16 +557,21 @@ func (g *Gen) genEntityOp(op *Op) {
 	if len(chosen) > 2 {
 		chosen = chosen[:2]
 	}
-	if g.Safe {
-		chosen = chosen[:1]
+	// safe profile: a batch over two entity types only with plain fields (follow-up calls on a
+	// mixed batch are a known finding)
+	plainOnly := g.Safe && len(chosen) > 1
+	savedNoResol := g.NoResol
+	if plainOnly {
+		g.NoResol = true
 	}
+	defer func() { g.NoResol = savedNoResol }()
 	g.uid++
 	root := &Node{Kind: "f", UID: g.uid, Name: "_entities", Args: []Arg{{Name: "representations", Var: "representations"}}}
 	op.VarDefs = append(op.VarDefs, VarDef{Name: "representations", Type: "[_Any!]!"})
 	needed := map[string][]string{} // type -> @requires selections whose externals must be in the representations
 	for _, e := range chosen {
 		t := g.S.Types[e]
-		sel := g.pickFields(op, t, 1, true, 1, "e")
+		sel := g.pickFields(op, t, 1, !plainOnly, 1, "e")
 		if g.R.Chance(1, 3) {
 			sel = append(sel, g.typenameField())
 		}
